@@ -1,3 +1,391 @@
-import LpModel.C02
+/-
+  C02 — Find_Root (Ridder's method): property theorems (DESIGN.md §6, C02).
+  Statements are about the executable model `Lp.C02.findRoot` (exact rationals, `rnd = id`),
+  for every user function `f : Rat → Option Rat` (`none` = NaN) and every square-root parameter
+  `sq` with `SqOK sq` (`0 < sq y` and `y ≤ sq y * sq y` for `y > 0`).
+  The tie to src/Numerics.cpp is the correspondence run.
+-/
+import LpProofs.C02.Lemmas
 namespace Lp.C02
+
+/-! ## The loop -/
+
+/-- what holds of the result of the loop started with fuel `n` on a bracket not wider than `W` -/
+def LoopPost (f : Rat → Option Rat) (lo hi acc W : Rat) (n : Nat) (R : Res) : Prop :=
+  (∀ x ∈ R.evals, lo ≤ x ∧ x ≤ hi) ∧
+  (∀ (i : Nat) (h : Head), R.heads[i]? = some h →
+      Br f lo hi h.x1 h.x2 h.f1 h.f2 ∧ |h.x2 - h.x1| ≤ W / 2 ^ i) ∧
+  (R.out = .nanInside ∨
+   (∃ r, R.out = .root r ∧ lo ≤ r ∧ r ≤ hi ∧ (f r = some 0 ∨ Witness f lo hi acc true r)) ∨
+   (∃ r, R.out = .maxIter r ∧ Witness f lo hi (W / 2 ^ n) false r))
+
+theorem loop_spec (f : Rat → Option Rat) (sq : Rat → Rat) (hsq : SqOK sq) (lo hi acc : Rat) (n : Nat) :
+    ∀ x1 x2 f1 f2 res W : Rat, Br f lo hi x1 x2 f1 f2 → |x2 - x1| ≤ W →
+      (n = 0 → res = x1 ∨ res = x2) →
+      LoopPost f lo hi acc W n (loop f sq id acc n x1 x2 f1 f2 res) := by
+  induction n with
+  | zero =>
+    intro x1 x2 f1 f2 res W hbr hW hres
+    obtain ⟨hf1, hf2, hsc, hl1, hh1, hl2, hh2⟩ := hbr
+    have hr := hres rfl
+    rw [loop]
+    refine ⟨?_, ?_, Or.inr (Or.inr ⟨res, rfl, x1, x2, f1, f2, hf1, hf2, hsc, hr, ?_, hl1, hh1, hl2, hh2⟩)⟩
+    · intro x hx
+      simp only [List.mem_cons, List.not_mem_nil, or_false] at hx
+      subst hx
+      rcases hr with rfl | rfl
+      · exact ⟨hl1, hh1⟩
+      · exact ⟨hl2, hh2⟩
+    · intro i h hi'; simp at hi'
+    · simpa using hW
+  | succ n ih =>
+    intro x1 x2 f1 f2 res W hbr hW _
+    have hs := step_spec f sq hsq lo hi acc x1 x2 f1 f2 hbr
+    rw [loop]
+    have hhead0 : Br f lo hi x1 x2 f1 f2 ∧ |x2 - x1| ≤ W / 2 ^ 0 := ⟨hbr, by simpa using hW⟩
+    generalize step f sq id acc x1 x2 f1 f2 = st at hs
+    cases st with
+    | done o ev =>
+      obtain ⟨hev, hout⟩ := hs
+      refine ⟨hev, ?_, ?_⟩
+      · intro i h hi'
+        match i with
+        | 0 => simp only [List.getElem?_cons_zero, Option.some.injEq] at hi'; subst hi'; exact hhead0
+        | i + 1 => simp at hi'
+      · rcases hout with h | ⟨r, h1, h2, h3, h4⟩
+        · exact Or.inl h
+        · exact Or.inr (Or.inl ⟨r, h1, h2, h3, h4⟩)
+    | next y1 y2 g1 g2 r ev =>
+      obtain ⟨hev, hbr', hw', hr⟩ := hs
+      have hW' : |y2 - y1| ≤ W / 2 := by linarith
+      obtain ⟨ie, ih', io⟩ := ih y1 y2 g1 g2 r (W / 2) hbr' hW' (fun _ => hr)
+      refine ⟨?_, ?_, ?_⟩
+      · intro x hx
+        simp only [List.mem_append] at hx
+        rcases hx with hx | hx
+        · exact hev x hx
+        · exact ie x hx
+      · intro i h hi'
+        match i with
+        | 0 => simp only [List.getElem?_cons_zero, Option.some.injEq] at hi'; subst hi'; exact hhead0
+        | i + 1 =>
+          simp only [List.getElem?_cons_succ] at hi'
+          obtain ⟨a1, a2⟩ := ih' i h hi'
+          refine ⟨a1, ?_⟩
+          have : W / 2 / 2 ^ i = W / 2 ^ (i + 1) := by rw [pow_succ]; field_simp
+          rw [← this]; exact a2
+      · rcases io with h | ⟨r', h1, h2, h3, h4⟩ | ⟨r', h1, h2⟩
+        · exact Or.inl h
+        · exact Or.inr (Or.inl ⟨r', h1, h2, h3, h4⟩)
+        · refine Or.inr (Or.inr ⟨r', h1, ?_⟩)
+          have : W / 2 / 2 ^ n = W / 2 ^ (n + 1) := by rw [pow_succ]; field_simp
+          rw [← this]; exact h2
+
+/-! ## Find_Root -/
+
+theorem lo_eq_min (xl xr : Rat) : (if xl > xr then xr else xl) = min xl xr := by
+  by_cases h : xl > xr
+  · rw [if_pos h, min_eq_right (le_of_lt h)]
+  · rw [if_neg h, min_eq_left (not_lt.mp h)]
+
+theorem hi_eq_max (xl xr : Rat) : (if xl > xr then xl else xr) = max xl xr := by
+  by_cases h : xl > xr
+  · rw [if_pos h, max_eq_left (le_of_lt h)]
+  · rw [if_neg h, max_eq_right (not_lt.mp h)]
+
+/-- unfolding of `findRoot` in terms of `min`/`max` of the ends -/
+theorem findRoot_eq (f : Rat → Option Rat) (sq : Rat → Rat) (xl xr acc : Rat) :
+    findRoot f sq xl xr acc =
+      match f (min xl xr), f (max xl xr) with
+      | some fl, some fr =>
+        if fl * fr ≥ 0 then
+          if fl = 0 then { out := .root (min xl xr), evals := [min xl xr, max xl xr], heads := [] }
+          else if fr = 0 then { out := .root (max xl xr), evals := [min xl xr, max xl xr], heads := [] }
+          else { out := .errNoSignChange, evals := [min xl xr, max xl xr], heads := [] }
+        else
+          let R := loop f sq id acc maxIterations (min xl xr) (max xl xr) fl fr result0
+          { out := R.out, evals := min xl xr :: max xl xr :: R.evals, heads := R.heads }
+      | _, _ => { out := .errNaN, evals := [min xl xr, max xl xr], heads := [] } := by
+  unfold findRoot findRootR
+  simp only [lo_eq_min, hi_eq_max]
+  rfl
+
+/-- **findRoot_swap**: the ends in either order give the same run (outcome, abscissae, states). -/
+theorem findRoot_swap (f : Rat → Option Rat) (sq : Rat → Rat) (xl xr acc : Rat) :
+    findRoot f sq xr xl acc = findRoot f sq xl xr acc := by
+  rw [findRoot_eq, findRoot_eq, min_comm, max_comm]
+
+/-- **findRoot_nan**: NaN at a bracket end gives the diagnostic outcome, never a number. -/
+theorem findRoot_nan (f : Rat → Option Rat) (sq : Rat → Rat) (xl xr acc : Rat)
+    (h : f (min xl xr) = none ∨ f (max xl xr) = none) :
+    (findRoot f sq xl xr acc).out = .errNaN := by
+  rw [findRoot_eq]
+  rcases h with h | h
+  · rw [h]
+  · rw [h]; cases f (min xl xr) <;> rfl
+
+/-- **findRoot_no_sign_change**: equal strict signs at the ends give the diagnostic outcome. -/
+theorem findRoot_no_sign_change (f : Rat → Option Rat) (sq : Rat → Rat) (xl xr acc fl fr : Rat)
+    (hl : f (min xl xr) = some fl) (hr : f (max xl xr) = some fr) (h : 0 < fl * fr) :
+    (findRoot f sq xl xr acc).out = .errNoSignChange := by
+  rw [findRoot_eq, hl, hr]
+  have h1 : fl ≠ 0 := by rintro rfl; simp at h
+  have h2 : fr ≠ 0 := by rintro rfl; simp at h
+  simp only [ge_iff_le, le_of_lt h, if_true, if_neg h1, if_neg h2]
+
+/-- **findRoot_end_zero**: a bracket end that is a zero is returned as is (the left one first),
+    after exactly the two evaluations at the ends. -/
+theorem findRoot_end_zero (f : Rat → Option Rat) (sq : Rat → Rat) (xl xr acc fl fr : Rat)
+    (hl : f (min xl xr) = some fl) (hr : f (max xl xr) = some fr) :
+    (fl = 0 → (findRoot f sq xl xr acc).out = .root (min xl xr) ∧
+        (findRoot f sq xl xr acc).evals = [min xl xr, max xl xr]) ∧
+    (fl ≠ 0 → fr = 0 → (findRoot f sq xl xr acc).out = .root (max xl xr) ∧
+        (findRoot f sq xl xr acc).evals = [min xl xr, max xl xr]) := by
+  rw [findRoot_eq, hl, hr]
+  constructor
+  · rintro rfl; simp
+  · intro h1 h2; subst h2; simp [h1]
+
+/-- the full specification of a run on a bracket with a strict sign change -/
+theorem findRoot_spec (f : Rat → Option Rat) (sq : Rat → Rat) (hsq : SqOK sq) (xl xr acc fl fr : Rat)
+    (hl : f (min xl xr) = some fl) (hr : f (max xl xr) = some fr) (h : fl * fr < 0) :
+    ∃ R, LoopPost f (min xl xr) (max xl xr) acc |xr - xl| maxIterations R ∧
+      findRoot f sq xl xr acc = { out := R.out, evals := min xl xr :: max xl xr :: R.evals, heads := R.heads } := by
+  refine ⟨loop f sq id acc maxIterations (min xl xr) (max xl xr) fl fr result0, ?_, ?_⟩
+  · apply loop_spec f sq hsq
+    · exact ⟨hl, hr, h, le_refl _, min_le_max, min_le_max, le_refl _⟩
+    · rcases le_total xl xr with hle | hle
+      · rw [min_eq_left hle, max_eq_right hle]
+      · rw [min_eq_right hle, max_eq_left hle, abs_sub_comm]
+    · intro h0; exact absurd h0 (by decide)
+  · rw [findRoot_eq, hl, hr]
+    simp only [ge_iff_le, not_le.mpr h, if_false]
+
+/-- case analysis of a run: every run is one of the guard outcomes or a loop run -/
+theorem findRoot_cases (f : Rat → Option Rat) (sq : Rat → Rat) (hsq : SqOK sq) (xl xr acc : Rat) :
+    ((findRoot f sq xl xr acc).heads = [] ∧ (findRoot f sq xl xr acc).evals = [min xl xr, max xl xr] ∧
+      ((findRoot f sq xl xr acc).out = .errNaN ∨ (findRoot f sq xl xr acc).out = .errNoSignChange ∨
+        ((findRoot f sq xl xr acc).out = .root (min xl xr) ∧ f (min xl xr) = some 0) ∨
+        ((findRoot f sq xl xr acc).out = .root (max xl xr) ∧ f (max xl xr) = some 0))) ∨
+    (∃ R, LoopPost f (min xl xr) (max xl xr) acc |xr - xl| maxIterations R ∧
+      findRoot f sq xl xr acc = { out := R.out, evals := min xl xr :: max xl xr :: R.evals, heads := R.heads }) := by
+  cases hl : f (min xl xr) with
+  | none =>
+    left; rw [findRoot_eq, hl]; exact ⟨rfl, rfl, Or.inl rfl⟩
+  | some fl =>
+    cases hr : f (max xl xr) with
+    | none => left; rw [findRoot_eq, hl, hr]; exact ⟨rfl, rfl, Or.inl rfl⟩
+    | some fr =>
+      by_cases h : fl * fr < 0
+      · right; exact findRoot_spec f sq hsq xl xr acc fl fr hl hr h
+      · left
+        rw [findRoot_eq, hl, hr]
+        simp only [ge_iff_le, not_lt.mp h, if_true]
+        by_cases h1 : fl = 0
+        · subst h1; simp
+        · by_cases h2 : fr = 0
+          · subst h2; simp [h1]
+          · simp [h1, h2]
+
+/-- **ridder_evals_in_bracket**: for every user function, **every** square root `sq`, **every**
+    rounding `rnd` and every positive iteration budget, every abscissa at which `f` is evaluated
+    lies in `[min xl xr, max xl xr]` (the iterate is clamped into the current bracket, commit
+    008fb03; no hypothesis on `sq` or `rnd`). -/
+theorem ridder_evals_in_bracket (f : Rat → Option Rat) (sq rnd : Rat → Rat) (xl xr acc : Rat)
+    (fuel : Nat) (hfuel : 0 < fuel) :
+    ∀ x ∈ (findRootR f sq rnd xl xr acc fuel).evals, min xl xr ≤ x ∧ x ≤ max xl xr := by
+  intro x hx
+  have ends : ∀ y, y = min xl xr ∨ y = max xl xr → min xl xr ≤ y ∧ y ≤ max xl xr := by
+    rintro y (rfl | rfl)
+    · exact ⟨le_refl _, min_le_max⟩
+    · exact ⟨min_le_max, le_refl _⟩
+  unfold findRootR at hx
+  simp only [lo_eq_min, hi_eq_max] at hx
+  split at hx
+  · split at hx
+    · split at hx
+      · simp only [List.mem_cons, List.not_mem_nil, or_false] at hx; exact ends x hx
+      · split at hx <;> (simp only [List.mem_cons, List.not_mem_nil, or_false] at hx; exact ends x hx)
+    · simp only [List.mem_cons] at hx
+      rcases hx with h | h | h
+      · exact ends x (Or.inl h)
+      · exact ends x (Or.inr h)
+      · exact loop_hull f sq rnd _ _ acc fuel _ _ _ _ _
+          ⟨le_refl _, min_le_max, min_le_max, le_refl _⟩ (fun h0 => absurd h0 (by omega)) x h
+  · simp only [List.mem_cons, List.not_mem_nil, or_false] at hx; exact ends x hx
+
+/-- the instance the other theorems are about: exact arithmetic, 50 iterations -/
+theorem findRoot_evals_in_bracket (f : Rat → Option Rat) (sq : Rat → Rat) (xl xr acc : Rat) :
+    ∀ x ∈ (findRoot f sq xl xr acc).evals, min xl xr ≤ x ∧ x ≤ max xl xr :=
+  ridder_evals_in_bracket f sq id xl xr acc maxIterations (by decide)
+
+/-- **ridder_invariant**: at the head of every iteration `f1·f2 < 0` with `f1 = f x1`, `f2 = f x2`,
+    both ends inside the initial bracket, and the bracket has at most half the width of the
+    previous one (`|x2 − x1| ≤ |xr − xl| / 2^i` at iteration `i`); the
+    "does not reach the root" exit is unreachable. -/
+theorem ridder_invariant (f : Rat → Option Rat) (sq : Rat → Rat) (hsq : SqOK sq) (xl xr acc : Rat) :
+    (∀ (i : Nat) (h : Head), (findRoot f sq xl xr acc).heads[i]? = some h →
+        f h.x1 = some h.f1 ∧ f h.x2 = some h.f2 ∧ h.f1 * h.f2 < 0 ∧
+        min xl xr ≤ h.x1 ∧ h.x1 ≤ max xl xr ∧ min xl xr ≤ h.x2 ∧ h.x2 ≤ max xl xr ∧
+        |h.x2 - h.x1| ≤ |xr - xl| / 2 ^ i) ∧
+    (findRoot f sq xl xr acc).out ≠ .errStuck := by
+  rcases findRoot_cases f sq hsq xl xr acc with ⟨hh, _, ho⟩ | ⟨R, hp, he⟩
+  · refine ⟨?_, ?_⟩
+    · intro i h hi'; rw [hh] at hi'; simp at hi'
+    · rcases ho with h | h | ⟨h, _⟩ | ⟨h, _⟩ <;> rw [h] <;> simp
+  · rw [he]
+    refine ⟨?_, ?_⟩
+    · intro i h hi'
+      obtain ⟨⟨a1, a2, a3, a4, a5, a6, a7⟩, hw⟩ := hp.2.1 i h hi'
+      exact ⟨a1, a2, a3, a4, a5, a6, a7, hw⟩
+    · rcases hp.2.2 with h | ⟨r, h, _⟩ | ⟨r, h, _⟩ <;> simp only [h] <;> simp
+
+/-- **findRoot_accuracy** (full clause): if the run returns `r` normally then `r` lies in the
+    bracket and either `f r = 0`, or `r` is an end of an interval `[u,v]` inside the bracket with
+    `f u · f v < 0` and `|v − u| < acc` — a sign change of `f` within `acc` of `r`. -/
+theorem findRoot_accuracy (f : Rat → Option Rat) (sq : Rat → Rat) (hsq : SqOK sq) (xl xr acc r : Rat)
+    (hret : (findRoot f sq xl xr acc).out = .root r) :
+    min xl xr ≤ r ∧ r ≤ max xl xr ∧
+      (f r = some 0 ∨ Witness f (min xl xr) (max xl xr) acc true r) := by
+  rcases findRoot_cases f sq hsq xl xr acc with ⟨_, _, ho⟩ | ⟨R, hp, he⟩
+  · rcases ho with h | h | ⟨h, hz⟩ | ⟨h, hz⟩
+    · rw [h] at hret; cases hret
+    · rw [h] at hret; cases hret
+    · rw [h] at hret; cases hret; exact ⟨le_refl _, min_le_max, Or.inl hz⟩
+    · rw [h] at hret; cases hret; exact ⟨min_le_max, le_refl _, Or.inl hz⟩
+  · rw [he] at hret
+    simp only at hret
+    rcases hp.2.2 with h | ⟨r', h, h1, h2, h3⟩ | ⟨r', h, _⟩
+    · rw [h] at hret; cases hret
+    · rw [h] at hret; cases hret; exact ⟨h1, h2, h3⟩
+    · rw [h] at hret; cases hret
+
+/-- **findRoot_maxiter_bound**: if the 50 iterations are used up, the returned iterate is an end of
+    an interval with a sign change not wider than `|xr − xl| / 2^50`. -/
+theorem findRoot_maxiter_bound (f : Rat → Option Rat) (sq : Rat → Rat) (hsq : SqOK sq) (xl xr acc r : Rat)
+    (hret : (findRoot f sq xl xr acc).out = .maxIter r) :
+    Witness f (min xl xr) (max xl xr) (|xr - xl| / 2 ^ 50) false r := by
+  rcases findRoot_cases f sq hsq xl xr acc with ⟨_, _, ho⟩ | ⟨R, hp, he⟩
+  · rcases ho with h | h | ⟨h, _⟩ | ⟨h, _⟩ <;> rw [h] at hret <;> cases hret
+  · rw [he] at hret
+    simp only at hret
+    rcases hp.2.2 with h | ⟨r', h, _⟩ | ⟨r', h, hw⟩
+    · rw [h] at hret; cases hret
+    · rw [h] at hret; cases hret
+    · rw [h] at hret; cases hret; exact hw
+
+/-- **findRoot_sign_change_returns**: a bracket with a sign change (or a zero end) never gives a
+    diagnostic outcome: the run returns a number (or meets a NaN inside, which is not modelled). -/
+theorem findRoot_sign_change_returns (f : Rat → Option Rat) (sq : Rat → Rat) (hsq : SqOK sq)
+    (xl xr acc fl fr : Rat) (hl : f (min xl xr) = some fl) (hr : f (max xl xr) = some fr)
+    (h : fl * fr ≤ 0) :
+    (∃ r, (findRoot f sq xl xr acc).out = .root r) ∨ (∃ r, (findRoot f sq xl xr acc).out = .maxIter r) ∨
+      (findRoot f sq xl xr acc).out = .nanInside := by
+  rcases lt_or_eq_of_le h with hlt | heq
+  · obtain ⟨R, hp, he⟩ := findRoot_spec f sq hsq xl xr acc fl fr hl hr hlt
+    rw [he]
+    rcases hp.2.2 with h | ⟨r, h, _⟩ | ⟨r, h, _⟩
+    · exact Or.inr (Or.inr h)
+    · exact Or.inl ⟨r, h⟩
+    · exact Or.inr (Or.inl ⟨r, h⟩)
+  · have hz := findRoot_end_zero f sq xl xr acc fl fr hl hr
+    by_cases h1 : fl = 0
+    · exact Or.inl ⟨_, (hz.1 h1).1⟩
+    · have h2 : fr = 0 := by
+        rcases mul_eq_zero.mp heq with h | h
+        · exact absurd h h1
+        · exact h
+      exact Or.inl ⟨_, (hz.2 h1 h2).1⟩
+
+/-! ## Linear functions are solved exactly -/
+
+/-- **findRoot_linear_exact**: for `f x = m·x + q`, `m ≠ 0`, with a square root that is exact on
+    squares (`sq (t·t) = |t|`), the first Ridder iterate is the exact root `−q/m` and is returned
+    after four evaluations (the two ends, the midpoint, the root). -/
+theorem findRoot_linear_exact (sq : Rat → Rat) (hsq : ∀ t : Rat, sq (t * t) = |t|)
+    (m q xl xr acc : Rat) (hm : m ≠ 0)
+    (hsc : (m * min xl xr + q) * (m * max xl xr + q) < 0) :
+    (findRoot (fun x => some (m * x + q)) sq xl xr acc).out = .root (-q / m) ∧
+    (findRoot (fun x => some (m * x + q)) sq xl xr acc).evals
+      = [min xl xr, max xl xr, (min xl xr + max xl xr) / 2, -q / m] := by
+  rw [findRoot_eq]
+  simp only [ge_iff_le, not_le.mpr hsc, if_false]
+  set lo := min xl xr
+  set hi := max xl xr
+  have hlh : lo ≤ hi := min_le_max
+  -- the root lies strictly inside
+  have hprod : (m * lo + q) * (m * hi + q) = (m * m) * ((lo - -q / m) * (hi - -q / m)) := by
+    field_simp; ring
+  have hmm : 0 < m * m := mul_self_pos.mpr hm
+  have hin : (lo - -q / m) * (hi - -q / m) < 0 := by
+    by_contra hn; push Not at hn
+    have := mul_nonneg (le_of_lt hmm) hn
+    linarith
+  have hlo : lo ≤ -q / m := by
+    by_contra hn; push Not at hn
+    have : 0 ≤ (lo - -q / m) * (hi - -q / m) := mul_nonneg (by linarith) (by linarith)
+    linarith
+  have hhi : -q / m ≤ hi := by
+    by_contra hn; push Not at hn
+    have : 0 ≤ (lo - -q / m) * (hi - -q / m) := mul_nonneg_of_nonpos_of_nonpos (by linarith) (by linarith)
+    linarith
+  have hne : lo ≠ hi := by
+    rintro h; rw [h] at hsc; nlinarith [mul_self_nonneg (m * hi + q)]
+  -- the first iterate
+  have hx4 : ridderX4 sq id lo (m * lo + q) (m * hi + q) ((lo + hi) / 2) (m * ((lo + hi) / 2) + q) = -q / m := by
+    unfold ridderX4
+    simp only [id]
+    have hD : (m * ((lo + hi) / 2) + q) * (m * ((lo + hi) / 2) + q) - (m * lo + q) * (m * hi + q)
+        = ((m * (lo - hi)) / 2) * ((m * (lo - hi)) / 2) := by ring
+    have hd : (m * lo + q) - (m * hi + q) = m * (lo - hi) := by ring
+    rw [hD, hsq, hd]
+    have hdne : m * (lo - hi) ≠ 0 := mul_ne_zero hm (sub_ne_zero.mpr hne)
+    rcases lt_or_gt_of_ne hdne with hneg | hpos
+    · rw [sign1_neg hneg, abs_of_neg (by linarith)]
+      have : -(m * (lo - hi) / 2) ≠ 0 := by linarith
+      field_simp
+      push_cast
+      ring
+    · rw [sign1_pos hpos, abs_of_pos (by linarith)]
+      have : m * (lo - hi) / 2 ≠ 0 := by linarith
+      field_simp
+      push_cast
+      ring
+  have h50 : maxIterations = 49 + 1 := rfl
+  rw [h50, loop]
+  unfold step
+  simp only []
+  rw [hx4, clampX4_of_mem lo hi _ (by rw [min_eq_left hlh]; exact hlo) (by rw [max_eq_right hlh]; exact hhi)]
+  have hz : m * (-q / m) + q = 0 := by field_simp; ring
+  simp only [hz, if_true]
+  and_intros <;> first | trivial | rfl
+
+/-! ## Non-vacuity -/
+
+/-- `SqOK` is satisfiable, even by a very crude "square root" -/
+example : SqOK (fun y => y + 1) := by
+  intro y hy
+  exact ⟨by linarith, by nlinarith⟩
+
+/-- a square root that is exact on squares exists (hypothesis of `findRoot_linear_exact`) -/
+example : ∃ sq : Rat → Rat, ∀ t : Rat, sq (t * t) = |t| := by
+  classical
+  refine ⟨fun y => if h : ∃ t : Rat, t * t = y then |Classical.choose h| else 0, ?_⟩
+  intro t
+  have h : ∃ s : Rat, s * s = t * t := ⟨t, rfl⟩
+  simp only [dif_pos h]
+  have hc := Classical.choose_spec h
+  exact abs_eq_abs.mpr (mul_self_eq_mul_self_iff.mp hc)
+
+/-- a concrete bracket meeting the hypotheses of `findRoot_linear_exact`: `2x − 1` on `[0, 2]` -/
+example (sq : Rat → Rat) (hsq : ∀ t : Rat, sq (t * t) = |t|) :
+    (findRoot (fun x => some (2 * x + -1)) sq 0 2 (1 / 1000)).out = .root (1 / 2) := by
+  have h := (findRoot_linear_exact sq hsq 2 (-1) 0 2 (1 / 1000) (by norm_num) (by norm_num)).1
+  rw [h]; norm_num
+
+/-- a concrete run meeting the hypotheses of `findRoot_accuracy` (zero end) -/
+example (sq : Rat → Rat) : (findRoot (fun x => some (x - 1)) sq 1 2 (1 / 10)).out = .root 1 := by
+  have h := (findRoot_end_zero (fun x => some (x - 1)) sq 1 2 (1 / 10) 0 1 (by norm_num) (by norm_num)).1 rfl
+  rw [h.1]; norm_num
+
 end Lp.C02
